@@ -44,6 +44,23 @@ def compile_progs(th, sources):
     return progs
 
 
+def compile_progs_lenient(th, sources):
+    """like compile_progs, but a rejected source yields a placeholder program (so that indices stay aligned)"""
+    recs, rc, err = run_th(th, ["compile", "--prog"], [dict(s, i=i) for i, (_, s) in enumerate(sources)])
+    res = {r["i"]: r for r in recs if "ok" in r}
+    progs = []
+    for i, (n, _) in enumerate(sources):
+        r = res.get(i)
+        if r is not None and r["ok"]:
+            r["prog"].setdefault("arity", [])
+            r["prog"].setdefault("toklines", [])
+            progs.append(r["prog"])
+        else:
+            progs.append({"code": [{"op": "PREP", "a": 0, "b": 0, "c": 0}, {"op": "HALT", "a": 0, "b": 0, "c": 0}],
+                          "maps": [{"name": "#root", "regs": []}], "pbs": [], "sites": [], "arity": [], "toklines": []})
+    return progs
+
+
 def write_progs(d, progs):
     p = os.path.join(d, "progs.json")
     with open(p, "w") as f:
